@@ -170,7 +170,8 @@ package postgresql
 //@ func (packet *PacketHandler) parseColumns(columnFormats []uint16) (err error)
 //@   props C12 C14
 //@   safety
-//@   loop 0 invariant 0 <= i
+//@   loop 0 invariant 0 <= i && i <= packet.columnCount && len(columns) == i && forall(k, 0, i, columns[k] != nil)
+//@   ensures one-column-object-per-declared-column: err == nil ==> 0 <= packet.columnCount && (packet.columnCount == 0 || (len(packet.Columns) == packet.columnCount && forall(k, 0, packet.columnCount, packet.Columns[k] != nil)))
 
 //@ func (packet *PacketHandler) updateDataFromColumns(queryDataItems []*encryptor.QueryDataItem)
 //@   props C12 C14
@@ -313,3 +314,24 @@ package postgresql
 
 // The 4-byte length buffer of a packet handler is allocated by its constructor and never replaced.
 //@ structural pg-length-buffer-immutable props C05 C12 C14 : field-readonly PacketHandler.descriptionLengthBuf allow newPacketHandlerWithLogger
+
+// Data rows (C12, C19): every non-NULL column is handed to the subscribers on its own - with the connection's context,
+// its own index, its own bytes, the result format the client asked for in Bind for this column (text without Bind) and
+// the encryption setting of this column - and is then replaced by exactly what the subscribers returned; NULL columns
+// are not touched; the packet is re-framed from the columns at the end.
+//@ func (proxy *PgProxy) handleQueryDataPacket(ctx context.Context, packet *PacketHandler, logger *log.Entry) (err error)
+//@   props C12 C19
+//@   noinline onColumnDecryption GetData IsNull Setting
+//@   opaque updateDataFromColumns
+//@   loop 0 invariant 0 <= i
+//@          invariant called(PgProxy.onColumnDecryption) ==> ret(PgProxy.onColumnDecryption)[1] == nil
+//@          invariant !called(PacketHandler.updateDataFromColumns)
+//@   at call PgProxy.onColumnDecryption : assert per-column-decision: arg[0] == ctx && arg[1] == i && 0 <= i && i < packet.columnCount && sameslice(arg[2], ret(ColumnData.GetData)[0]) && (arg[3] <==> (bindPacket != nil && ret(GetParameterFormatByIndex)[0] == 1))
+//@   at call PgProxy.onColumnDecryption : assert own-setting: (encryptionSettings != nil && i < len(encryptionSettings) && encryptionSettings[i] != nil) ==> arg[4] == ret(QueryDataItem.Setting)[0]
+//@   at call GetParameterFormatByIndex : assert arg[0] == i && sameslice(arg[1], bindPacket.resultFormats)
+//@   at call ColumnData.GetData : assert recv == packet.Columns[i]
+//@   at call ColumnData.IsNull : assert recv == packet.Columns[i]
+//@   at call ColumnData.SetData : assert result-used-whole: recv == packet.Columns[i] && sameslice(arg[0], ret(PgProxy.onColumnDecryption)[0]) && ret(PgProxy.onColumnDecryption)[1] == nil
+//@   at call QueryDataItem.Setting : assert recv == encryptionSettings[i]
+//@   at call PacketHandler.updateDataFromColumns : assert recv == packet
+//@   ensures failed-column-fails-the-row: called(PgProxy.onColumnDecryption) && ret(PgProxy.onColumnDecryption)[1] != nil ==> err != nil && !called(PacketHandler.updateDataFromColumns)
